@@ -175,7 +175,7 @@ int x509_validity_from_der(time_t *not_before, time_t *not_after, const uint8_t 
 		error_print();
 		return -1;
 	}
-	if (*not_before >= *not_after) {
+	if (*not_before > *not_after) {
 		error_print();
 		return -1;
 	}
